@@ -97,8 +97,16 @@ func (self *Node) MarshalJSON() ([]byte, error) {
 	}
 
 	// fast path for raw node
+	lock := self.rlock()
 	if self.isRaw() {
-		return rt.Str2Mem(self.toString()), nil
+		ret := rt.Str2Mem(self.toString())
+		if lock {
+			self.runlock()
+		}
+		return ret, nil
+	}
+	if lock {
+		self.runlock()
 	}
 
 	buf := newBuffer()
